@@ -15,4 +15,6 @@ CONSTANTS
   BugJsonAlias = FALSE
   BugEntryPointWritesTables = FALSE
   BugCopyDiffers = TRUE
+  BugMemoPublishedEarly = FALSE
+  BugCacheIgnoresContext = FALSE
 CHECK_DEADLOCK FALSE
